@@ -671,7 +671,19 @@ impl LatestBlockFilterHashes {
             );
             return Err(StatusCode::Ignore.with_context(errmsg));
         }
-        let mut end_number = start_number + block_filter_hashes.len() as BlockNumber - 1;
+        // The start number is provided by the peer: do not abort on overflow.
+        let mut end_number = if let Some(end_number) =
+            start_number.checked_add(block_filter_hashes.len() as BlockNumber - 1)
+        {
+            end_number
+        } else {
+            let errmsg = format!(
+                "start number ({}) with {} hashes is overflowed",
+                start_number,
+                block_filter_hashes.len()
+            );
+            return Err(StatusCode::BlockFilterHashesIsUnexpected.with_context(errmsg));
+        };
         if finalized_check_point_number >= end_number {
             let errmsg = format!(
                 "finalized check point ({}) is not less than end number ({})",
@@ -754,8 +766,11 @@ impl LatestBlockFilterHashes {
             }
         }
         // Update block filter hashes.
+        // The new hashes could be fewer than the known hashes.
         let index = start_index_for_new + self.inner[start_index_for_old..].len();
-        self.inner.extend_from_slice(&block_filter_hashes[index..]);
+        if index < block_filter_hashes.len() {
+            self.inner.extend_from_slice(&block_filter_hashes[index..]);
+        }
         if end_number < last_proved_number {
             Ok(Some(end_number + 1))
         } else {
